@@ -89,7 +89,11 @@ func genLDOpts(t *rapid.T, n int) m.LDOpts {
 		o.Vocab = rapid.Bool().Draw(t, "vocab")
 		o.Base = rapid.Bool().Draw(t, "base")
 		o.XsdPrefix = rapid.Bool().Draw(t, "xsdPrefix")
+		o.Aliases = rapid.Bool().Draw(t, "aliases")
+		o.Coerce = rapid.Bool().Draw(t, "coerce")
 	}
+	o.Reverse = rapid.IntRange(0, 2).Draw(t, "reverse") == 0
+	o.SetObj = rapid.IntRange(0, 2).Draw(t, "setObj") == 0
 	if n > 1 && rapid.Bool().Draw(t, "reorder") {
 		idx := make([]int, n)
 		for i := range idx {
